@@ -21,6 +21,8 @@ EmptyTab == [f2t |-> <<>>, order |-> <<>>, gen |-> {}]
 
 IsPrefixStr(p, s) == Len(p) <= Len(s) /\ SubSeq(s, 1, Len(p)) = p
 
+ContainsStr(s, sub) == \E i \in 1..(Len(s) - Len(sub) + 1) : SubSeq(s, i, i + Len(sub) - 1) = sub
+
 Names(tab) == DOMAIN tab.f2t
 
 \* names bound to exactly this key
